@@ -299,6 +299,10 @@ def coq_eval(tag, imports, exprs, prelude='', shard=400, timeout=600):
 
     All expressions of one call must have the same type (they are put in one list per shard).
     """
+    if os.environ.get('VERIF_BREAK_MODEL'):
+        # test knob (tools/model_dead_audit.sh): behave as if the model no longer evaluated, to see which checks still
+        # search the implementation for a failing input in that situation
+        raise CoqEvalError('model evaluation disabled by VERIF_BREAK_MODEL (%s)' % tag)
     d = os.path.join(COQ, 'Gen', 'cases')
     os.makedirs(d, exist_ok=True)
     files = []
@@ -357,6 +361,24 @@ def coq_eval(tag, imports, exprs, prelude='', shard=400, timeout=600):
 
 class CoqEvalError(Exception):
     pass
+
+
+def safe_coq_eval(ctx, tag, imports, exprs, prelude='', shard=400, timeout=600):
+    """coq_eval that does not abort the check when the model side is dead.
+
+    Returns the list of values, or None after recording the broken correspondence in ctx.proof_broken (a generated term
+    no longer type-checks, a model file no longer compiles, the evaluation times out ...).  The caller skips exactly the
+    comparisons that needed these values and still runs every oracle that judges the implementation's output on its own,
+    so that the search can still produce a concrete failing input (the runner reports the broken correspondence either
+    way, with `no-failing-input-found` only when that search finds nothing).
+    """
+    try:
+        return coq_eval(tag, imports, exprs, prelude=prelude, shard=shard, timeout=timeout)
+    except CoqEvalError as exc:
+        if len(ctx.proof_broken) < 12:
+            ctx.proof_broken.append('model evaluation failed (%s): %s' % (tag, str(exc).strip()[-400:]))
+        ctx.extra['model_dead'] = sorted(set(ctx.extra.get('model_dead', [])) | {tag})
+        return None
 
 
 # ----------------------------------------------------------------------------------------------
